@@ -37,7 +37,36 @@ def expected_resume(w, t0):
         return t0
     if k == 'eternity':
         return None
+    if k in ('and', 'or') and _time_only(w):
+        # the truth of a formula over dates changes only at those dates, and every child that turns true at a date has
+        # its trigger scheduled for it: the wait ends at the first of {now, dates after now} at which the formula holds
+        for t in sorted({t0} | {d for d in _dates(w) if d > t0}):
+            if _holds(w, t):
+                return t
+        return None
     return 'n/a'
+
+
+def _time_only(w):
+    if w[0] in ('and', 'or'):
+        return _time_only(w[1]) and _time_only(w[2])
+    return w[0] in ('after', 'before', 'moment', 'instant', 'eternity')
+
+
+def _dates(w):
+    if w[0] in ('and', 'or'):
+        return _dates(w[1]) | _dates(w[2])
+    return {tv(w[1])} if w[0] in ('after', 'before', 'moment') else set()
+
+
+def _holds(w, t):
+    k = w[0]
+    if k == 'and':
+        return _holds(w[1], t) and _holds(w[2], t)
+    if k == 'or':
+        return _holds(w[1], t) or _holds(w[2], t)
+    return {'after': lambda: t >= tv(w[1]), 'before': lambda: t < tv(w[1]), 'moment': lambda: t == tv(w[1]),
+            'instant': lambda: True, 'eternity': lambda: False}[k]()
 
 
 def mon_C01(sc, trace, probes, info):
